@@ -84,6 +84,8 @@ pub fn lower_block(truth: &mut Truth, mut block: ast::Block, hooks: &dyn llir::L
     -> Result<Vec<RawInstr>, truth::ErrorReported>
 {
     let ctx = truth.ctx();
+    // as in the real ECL pipeline (ecl_06.rs): difficulty validation precedes desugaring
+    truth::passes::validate_difficulty::run(&block, ctx, hooks)?;
     truth::passes::desugar_blocks::run(&mut block, ctx, lang)?;
     let mut errors = truth::error::ErrorFlag::new();
     let mut lowerer = llir::Lowerer::new(hooks);
